@@ -165,6 +165,8 @@ def uf_axioms(formulas):
                 out.append(x > 0)
             elif d.eq(SQRT) and _closed(x):
                 out.append(x >= 0)
+            elif d.eq(LOGB) and _closed(x):
+                out.append(z3.Implies(x.arg(0) == 1, x == 0))       # log_b(1) = 0
             for c in x.children():
                 go(c)
     pows = []
